@@ -304,7 +304,7 @@ func insideFrame(enc [][]byte, cuts []int) bool {
 
 func runC17(c *ev.Ctx) {
 	r := c.Rand("c17")
-	streams := c17Streams(r, c.Sz(20, 400))
+	streams := c17Streams(r, c.Sz(20, 1600))
 	for si, frames := range streams {
 		for _, socket := range []bool{false, true} {
 			if !c.Mine(si*2 + b2i(socket)) {
